@@ -111,6 +111,54 @@ func roundRobin() *sched.Instance {
 	return inst
 }
 
+// roundRobinSticky: sticky sessions make every request take a snapshot of the pool (Servers()) and walk it outside
+// the balancer's lock; the inspector keeps a snapshot across another call. Snapshots belong to their caller:
+// nothing the balancer does later may write to them.
+func roundRobinSticky() *sched.Instance {
+	c := &counter{}
+	rr, _ := roundrobin.New(okHandler(c, false), roundrobin.EnableStickySession(roundrobin.NewStickySession("sid")))
+	a, b, cc := mustURL("http://a"), mustURL("http://b"), mustURL("http://c")
+	rr.UpsertServer(a)
+	rr.UpsertServer(b)
+	rr.UpsertServer(cc)
+	rr.Servers()
+	sticky := func() int {
+		rec := httptest.NewRecorder()
+		req := httptest.NewRequest("GET", "http://client/", nil)
+		req.AddCookie(&http.Cookie{Name: "sid", Value: "http://b"})
+		rr.ServeHTTP(rec, req)
+		return rec.Code
+	}
+	var snapshot []string
+	inst := &sched.Instance{Names: []string{"req1", "req2", "admin", "inspect"}}
+	inst.Bodies = []func(){
+		func() { sticky(); sticky() },
+		func() { sticky() },
+		func() { rr.RemoveServer(a); rr.UpsertServer(a) },
+		func() {
+			s := rr.Servers()
+			rr.ServerWeight(b) // a scheduling point while the snapshot is held
+			for _, u := range s {
+				snapshot = append(snapshot, u.Host)
+			}
+		},
+	}
+	inst.Check = func(*vrt.Exec) []vrt.Failure {
+		if c.get(0) != 3 {
+			return []vrt.Failure{fail("lost-update:roundrobin-sticky", "3 requests, handler invoked %d times", c.get(0))}
+		}
+		seen := map[string]bool{}
+		for _, h := range snapshot {
+			if seen[h] {
+				return []vrt.Failure{fail("snapshot-rewritten:roundrobin", "a pool snapshot taken by the inspector lists %v: a server twice (the pool never held a server twice)", snapshot)}
+			}
+			seen[h] = true
+		}
+		return nil
+	}
+	return inst
+}
+
 func rebalancer() *sched.Instance {
 	c := &counter{}
 	rr, _ := roundrobin.New(okHandler(c, false))
@@ -498,6 +546,7 @@ func Scenarios(tier string) []*sched.Scenario {
 	}
 	return []*sched.Scenario{
 		mk("roundrobin", b, up, roundRobin),
+		mk("roundrobin-sticky", b, up, roundRobinSticky),
 		mk("rebalancer", b, up, rebalancer),
 		mk("rebalancer-adjusting", b, up, rebalancerAdjusting),
 		mk("breaker", b, up, breaker),
